@@ -281,16 +281,17 @@ def parseKind : String → Option NKind
   | "R" => some .root | "E" => some .elem | "A" => some .attr | "T" => some .text
   | "C" => some .comment | "P" => some .pi | _ => none
 
-/-- `<kind> <name> <value> <parent>` records up to `;`; returns the document and the remaining tokens -/
+/-- `<kind> <name> <value> <parent> <uri>` records up to `;`; returns the document and the remaining tokens -/
 def parseDoc (toks : List String) : Option (Doc × List String) :=
   let rec go : Nat → List String → List SNode → Option (Doc × List String)
     | _, ";" :: rest, acc => some ({ nodes := acc.reverse.toArray }, rest)
-    | f+1, k :: n :: v :: p :: rest, acc => do
+    | f+1, k :: n :: v :: p :: u :: rest, acc => do
       let kind ← parseKind k
       let name ← decodeStr n
       let value ← decodeStr v
       let parent ← p.toNat?
-      go f rest ({ kind := kind, name := name, value := value, parent := parent } :: acc)
+      let uri ← decodeStr u
+      go f rest ({ kind := kind, name := name, value := value, parent := parent, uri := uri } :: acc)
     | _, _, _ => none
   go toks.length toks []
 
